@@ -27,6 +27,30 @@ def mk_params(I, mode, minutes, ext="None", asr="Shafi", angles=None, intervals=
     return Struct("Params", [vals[n] for n in names])
 
 
+def _time_value(res, S, o, mf):
+    """The NaiveTime produced on a path; a refactored hour_to_time may return Option/Result - a failing conversion is a violation."""
+    v = o.value
+    if isinstance(v, Enum) and v.ty in ("Result", "Option"):
+        okn = "Ok" if v.ty == "Result" else "Some"
+        from ..mirsym.models import enum_is
+        bad = enum_is(v, "Err" if v.ty == "Result" else "None")
+        if bad is not False:
+            r, m = S.check(o.st.pc + ([] if bad is True else [bad]), timeout_ms=30000, want_model=True)
+            if r == "sat":
+                res["cands"].append({"what": "clock conversion fails (no time is produced) for a valid hour", "inputs": mf(m)})
+            elif r == "unknown":
+                res["inconclusive"].append("conversion-failure path undecided")
+        if okn in v.pay and bad is not True:
+            if bad is not False:
+                o.st.add(z3.Not(bad))
+            return v.pay[okn][0]
+        return None
+    if isinstance(v, Struct):
+        return v
+    res["inconclusive"].append("unexpected result shape of hour_to_time: %r" % (v,))
+    return None
+
+
 def rounding(prog, arg):
     """hour_to_time(params, prayer, hour) = the rounding mode's fixed function of the unrounded instant, for every real hour in
     [lo,hi] (outside 1 microsecond guard bands around whole seconds) and every minute offset in [-omax, omax]."""
@@ -54,7 +78,10 @@ def rounding(prog, arg):
         return {"hour": mval(m, h), "offset_min": mval(m, offs[prayer]), "mode": mode, "prayer": prayer}
     outs = I.run_body(prog.find_body("hour_to_time"), [Ref(pc_, ()), I.enum_variant("Prayer::" + prayer), h], st=st)
     for o in std_path_checks(res, I, S, outs, mf):
-        secs = to_z3(o.value.fields[0])
+        tv = _time_value(res, S, o, mf)
+        if tv is None:
+            continue
+        secs = to_z3(tv.fields[0])
         ss = sfl % 60
         mins = sfl / 60       # floor minutes since midnight (may be negative / >= 1440)
         if mode == "None":
@@ -102,7 +129,10 @@ def rounding_grid(prog, arg):
         return {"hour": mval(m, h), "offset_min": mval(m, offs[prayer]), "mode": mode, "prayer": prayer, "grid": True}
     outs = I.run_body(prog.find_body("hour_to_time"), [Ref(pc_, ()), I.enum_variant("Prayer::" + prayer), h], st=st)
     for o in std_path_checks(res, I, S, outs, mf):
-        secs = to_z3(o.value.fields[0])
+        tv = _time_value(res, S, o, mf)
+        if tv is None:
+            continue
+        secs = to_z3(tv.fields[0])
         ss = sfl % 60
         mins = sfl / 60
         if mode == "None":
